@@ -1035,10 +1035,9 @@ class DiHypergraph:
         nn = self.nodes
         cp.add_nodes_from((n, deepcopy(attr)) for n, attr in nn.items())
         ee = self.edges
-        cp.add_edges_from(
-            (e, idx, deepcopy(self.edges[idx]))
-            for idx, e in ee.dimembers(dtype=dict).items()
-        )
+        # the dict format is unambiguous whatever the type of the edge IDs
+        cp.add_edges_from(ee.dimembers(dtype=dict))
+        cp.set_edge_attributes({idx: deepcopy(self.edges[idx]) for idx in ee})
         cp._net_attr = deepcopy(self._net_attr)
 
         cp._edge_uid = copy(self._edge_uid)
